@@ -133,10 +133,14 @@ pub fn c15(a: &Args) {
             let (ta, ra) = (&acc[ia].0, &acc[ia].1);
             let (tb, rb) = (&acc[ib].0, &acc[ib].1);
             let tab = format!("{ta}...\n{tb}");
-            for be in 0..2 {
-                let rab = if be == 0 { run_str(&tab) } else { run_parser(&tab, Backend::Buf, Api::PushMulti) };
+            for be in 0..3 {
+                // (with keep_tags on, %TAG lines of A stay in force by design: only A without them is comparable)
+                if be == 2 && ta.contains("%TAG") {
+                    continue;
+                }
+                let rab = if be == 0 { run_str(&tab) } else if be == 1 { run_parser(&tab, Backend::Buf, Api::PushMulti) } else { run_parser_opts(&tab, Backend::Str, Api::Iter, true) };
                 let y = if rab.panic.is_some() { json!({"evs": [], "err": [{"msg": format!("PANIC {}", rab.panic.clone().unwrap()), "at": [0, 0, 0]}]}) } else { run_json(&rab) };
-                writeln!(w, "{}", json!({"k": "CONCAT", "ta": ta, "tb": tb, "via": if be == 0 { "pull/str" } else { "push/buf" }, "a": run_json(ra), "b": run_json(rb), "ab": y})).unwrap();
+                writeln!(w, "{}", json!({"k": "CONCAT", "ta": ta, "tb": tb, "via": (["pull/str", "push/buf", "pull/str/keep_tags"][be]), "a": run_json(ra), "b": run_json(rb), "ab": y})).unwrap();
                 nrec += 1;
             }
             // chains of up to 4 streams: fold the concatenation (A1+A2) + A3 ...
@@ -160,6 +164,29 @@ pub fn c15(a: &Args) {
             }
             if samples.len() < 3 && i % 5003 == 9 {
                 samples.push(json!({"A": ta, "B": tb}));
+            }
+        }
+    }
+    // streams with directives of every kind on both sides, keep_tags off and on
+    let dirs = ["%YAML 1.2\n---\na\n", "%YAML 1.1\n--- a\n", "%FOO bar baz\n---\na\n", "%FOO bar\n%YAML 1.2\n--- [a]\n", "%YAML 1.2\n%TAG !e! tag:e.org,2000:\n--- !e!t a\n",
+        "%TAG !e! tag:e.org,2000:\n--- !e!t a\n", "%TAG !! tag:e.org,2000:\n--- !!t a\n", "%TAG ! !loc-\n--- !t a\n", "--- a\n", "a\n", "--- !!str a\n--- !t b\n", "%YAML 1.2\n---\na\n...\n%YAML 1.2\n---\nb\n"];
+    for ta in dirs {
+        for tb in dirs {
+            let (ra, rb) = (run_str(ta), run_str(tb));
+            if ra.err.is_some() || ra.panic.is_some() || rb.panic.is_some() || rb.err.is_some() {
+                continue;
+            }
+            let tab = format!("{ta}...\n{tb}");
+            for keep in [false, true] {
+                if keep && ta.contains("%TAG") {
+                    continue;
+                }
+                for (be, api, via) in [(Backend::Str, Api::Iter, "pull/str"), (Backend::Buf, Api::PushMulti, "push/buf")] {
+                    let rab = run_parser_opts(&tab, be, api, keep);
+                    let y = if rab.panic.is_some() { json!({"evs": [], "err": [{"msg": format!("PANIC {}", rab.panic.clone().unwrap()), "at": [0, 0, 0]}]}) } else { run_json(&rab) };
+                    writeln!(w, "{}", json!({"k": "CONCAT", "ta": ta, "tb": tb, "via": format!("{via}{}", if keep { "/keep_tags" } else { "" }), "a": run_json(&ra), "b": run_json(&rb), "ab": y})).unwrap();
+                    nrec += 1;
+                }
             }
         }
     }
